@@ -4,9 +4,9 @@ package main
 
 import (
 	"crypto/sha1"
-	"regexp"
 	"fmt"
 	"go/types"
+	"regexp"
 	"strconv"
 	"strings"
 
@@ -24,7 +24,7 @@ type Env struct {
 	inOld    bool
 	depth    int
 	rootSt   *State
-	preNext  Term // allocation frontier before the call (callee postconditions)
+	preNext  Term            // allocation frontier before the call (callee postconditions)
 	absIndex map[string]Term // index expressions standing for an absolute-position bound variable
 }
 
